@@ -21,8 +21,8 @@ pub enum Policy {
     Random { short: u32, intr: u32 },
     /// the k-th write call (0-based) fails: 0 = Other, 1 = BrokenPipe, 2 = WouldBlock, 3 = Ok(0)
     FaultAt { index: usize, kind: u8 },
-    /// every write succeeds, the flush fails
-    FlushFault,
+    /// every write succeeds, every flush fails: 0 = Other, 1 = BrokenPipe, 2 = WouldBlock, 3 = Interrupted, 4 = TimedOut
+    FlushFault(u8),
     /// one Interrupted before the k-th call
     IntrAt(usize),
 }
@@ -71,7 +71,7 @@ impl io::Write for ScriptedSink {
                     }
                 }
             }
-            Policy::FlushFault => {}
+            Policy::FlushFault(_) => {}
             Policy::IntrAt(i) => {
                 if k == i && !self.interrupted_once {
                     self.interrupted_once = true;
@@ -102,17 +102,47 @@ impl io::Write for ScriptedSink {
     }
     fn flush(&mut self) -> io::Result<()> {
         let mut sh = self.sh.borrow_mut();
-        let fail = matches!(self.policy, Policy::FlushFault);
+        let fail = matches!(self.policy, Policy::FlushFault(_));
         if sh.log_writes {
             sh.events.push(json!({"ev": "Flush", "res": if fail { "err" } else { "ok" }}));
         } else if fail && !sh.dead {
             sh.events.push(json!({"ev": "Fault", "at": "flush"}));
         }
         if fail {
-            Err(io::Error::new(io::ErrorKind::Other, "scripted flush failure"))
+            let kind = match self.policy {
+                Policy::FlushFault(1) => io::ErrorKind::BrokenPipe,
+                Policy::FlushFault(2) => io::ErrorKind::WouldBlock,
+                Policy::FlushFault(3) => io::ErrorKind::Interrupted,
+                Policy::FlushFault(4) => io::ErrorKind::TimedOut,
+                _ => io::ErrorKind::Other,
+            };
+            Err(io::Error::new(kind, "scripted flush failure"))
         } else {
             Ok(())
         }
+    }
+}
+
+/// A plain build through a scripted sink, nothing logged: the bytes the sink ended up with, or
+/// the reason there are none.
+pub fn build_through(items: &[Kv], set: bool, policy: Policy, seed: u64) -> Result<Vec<u8>, String> {
+    let sh = Rc::new(RefCell::new(Shared { events: vec![], bytes: vec![], calls: 0, log_writes: false, dead: true }));
+    let sink = ScriptedSink { sh: sh.clone(), policy, rng: rng(seed, 78), interrupted_once: false };
+    let r = guard(|| -> Result<(), fst::Error> {
+        let mut b = Builder::new_type(sink, 0)?;
+        for (k, v) in items {
+            if set {
+                b.add(k)?;
+            } else {
+                b.insert(k, *v)?;
+            }
+        }
+        b.finish()
+    });
+    match r {
+        Ok(Ok(())) => Ok(std::mem::replace(&mut sh.borrow_mut().bytes, vec![])),
+        Ok(Err(e)) => Err(format!("{:?}", e)),
+        Err(p) => Err(format!("panic: {}", p)),
     }
 }
 
@@ -313,11 +343,15 @@ pub fn c11(log: &mut Log, seed: u64, tier: &str) {
             }
             idx += step;
         }
-        run(log, items, set, Policy::FlushFault, b"", None, seed, true);
+        for kind in 0..5u8 {
+            run(log, items, set, Policy::FlushFault(kind), b"", None, seed, true);
+        }
         // faults behind a BufWriter surface at flush time or later
         for idx in (0..std::cmp::min(w, 6)).chain(vec![w.saturating_sub(1)]) {
             run(log, items, set, Policy::FaultAt { index: idx, kind: (idx % 4) as u8 }, b"", Some(8), seed, true);
         }
-        run(log, items, set, Policy::FlushFault, b"", Some(64), seed, true);
+        for kind in 0..5u8 {
+            run(log, items, set, Policy::FlushFault(kind), b"", Some(64), seed, true);
+        }
     }
 }
